@@ -60,11 +60,18 @@ func runERRSTATE(c *Ctx) {
 				okRet[r.Block()] = true
 				continue
 			}
-			// an error variable that may be nil (`return err` after the last step) counts as a success return
-			if _, isCall := r.Results[ei].(*ssa.Call); !isCall {
-				if !ir.FlowNonNil(r.Results[ei], r) {
-					okRet[r.Block()] = true
+			// an error value that may be nil (`return err` after the last step, `return m.helper(ctx)`) counts as a
+			// success return; a definite error is a freshly constructed one or a value known non-nil here
+			definite := false
+			if call, isCall := r.Results[ei].(*ssa.Call); isCall {
+				if id := staticID(call); id == "fmt.Errorf" || id == "errors.New" {
+					definite = true
 				}
+			} else if ir.FlowNonNil(r.Results[ei], r) {
+				definite = true
+			}
+			if !definite {
+				okRet[r.Block()] = true
 			}
 		}
 		canOK := map[*ssa.BasicBlock]bool{}
